@@ -1110,6 +1110,55 @@ def neighbours(cfg) -> list[dict[str, Any]]:
     return out
 
 
+def probe_stale_file(res: Result, rng: common.Rng, n: int) -> None:
+    """OUT-OF-SCOPE probe (never a violation): an existing file that is neither erased nor loaded.
+    The real run and the model are compared for information; what happens is counted."""
+    for i in range(n):
+        sc = make_scenario(rng, rng.pick(["doe", "doe-obs", "mdo-unnorm"]), 3)
+        cfg = make_cfg(sc, rng.pick(["call", "iter"]), "earlier", rng)
+        cfg["label"] = f"probe-stale/{sc['family']}/{i}"
+        wd = workdir()
+        base = wd / "E.h5"
+        E = run_child(make_spec(cfg, cfg["earlier_algo"], base), wd, "E")
+        if E["rc"] != 0 or E["out"] is None or E["out"]["error"] or not base.exists():
+            res.count("probe-stale:skipped")
+            continue
+        U = run_child(make_spec(cfg, sc["algo"], base, load=False, erase=False), wd, "U")
+        if U["out"] is None:
+            res.count("probe-stale:run-died")
+            continue
+        raised = bool(U["out"]["error"])
+        fin, ok, _err = load_backup(base)
+        u_final = canon(U["out"]["db"])
+        if raised:
+            kind = "run-raises"
+        elif fin is None or not ok:
+            kind = "file-unreadable"
+        elif not db_equal(fin, u_final):
+            kind = "file-equals-history"
+        else:
+            kind = "file-is-not-the-history"
+        res.count(f"probe-stale:{kind}")
+        # the model on the same requests
+        try:
+            s = Session(cfg, "probe")
+            s.start(budget_of(cfg["earlier_algo"]), True)
+            s.requests(E["events"], canon(E["out"]["db"]), OrderedDict(), quiet=True)
+            s.add("finish")
+            s.add("crashstale")
+            s.start(budget_of(sc["algo"]), True)
+            s.requests(U["events"], u_final, OrderedDict(), quiet=True)
+            s.add("finish")
+            ans = common.run_lean_driver(PID, s.lines)
+            st = parse_state(ans[-1])
+            model_kind = "export-raises" if st.get("ok") == "0" else (
+                "file-equals-history" if st.get("read") == st.get("db") else "file-is-not-the-history")
+            res.count(f"probe-stale:model:{model_kind}")
+        except Exception as e:  # noqa: BLE001
+            res.count("probe-stale:model-not-run")
+            res.notes.append(f"probe-stale: {type(e).__name__}: {str(e)[:120]}")
+
+
 def run(ctx) -> Result:
     res = Result(PID)
     res.rule = (
@@ -1143,6 +1192,7 @@ def run(ctx) -> Result:
             if extra and time.time() < ctx.deadline:
                 res.count("failing-input-search-configs", len(extra))
                 process(res, extra, model=False)
+        probe_stale_file(res, common.make_rng(ctx.seed, "stale"), 6 if ctx.thorough else 2)
         if any(v.kind == "oracle" for v in res.violations):
             shrink(res, min(ctx.deadline, time.time() + (600 if ctx.thorough else 90)))
         res.sample({"configurations": [r["cfg"]["label"] + f" K={r.get('n_calls')} ks={r.get('ks')}" for r in runs][:60]})
